@@ -207,64 +207,73 @@ def setattrEvent (E : Env) (t : TraitCore) (value : Option Id) (s : OSt) : Optio
       if hasNotifiers tn on then callNotifiers E t tn on undef w s1
       else (none, s1)
 
+/-- ctraits.c:2445-2456: `value = traitd->validate(...)` unless there is no
+validator or the value is `Undefined`. -/
+def OSt.validateAssigned (E : Env) (t : TraitCore) (original : Id) (s : OSt) : Except Exc Id × OSt :=
+  if t.validate.isSome && original != undef then
+    match runValidate E t original s.ctx with
+    | (r, c) => (r, { s with ctx := c })
+  else (.ok original, s)
+
+/-- ctraits.c:2479-2519: the old value is only looked at when somebody will be
+told (`post_setattr != NULL || do_notifiers`).  When nothing is stored yet the
+default is materialised: stored and `post_setattr`'d, but not notified.
+Returns the old value (if fetched) and `changed`. -/
+def OSt.fetchOld (E : Env) (t : TraitCore) (changed0 doNotifiers : Bool) (value : Id) (s1 : OSt) :
+    Except Exc (Option Id × Bool) × OSt :=
+  if t.post.isSome || doNotifiers then
+    match s1.slot with
+    | some old => (.ok (some old, changed0 || (old != value)), s1)   -- changed = (old_value != value)
+    | none =>
+      match s1.defaultValueFor E t with
+      | (.error e, s2) => (.error e, s2)
+      | (.ok old, s2) =>
+        let s3 := { s2 with slot := some old }
+        match postSetattr E t old s3 with
+        | (some e, s4) => (.error e, s4)
+        | (none, s4) => (.ok (some old, changed0 || (old != value)), s4)
+  else (.ok (none, changed0), s1)
+
+/-- ctraits.c:2392-2443: `del obj.name`. -/
+def setattrTraitDel (E : Env) (t : TraitCore) (changed0 : Bool) (s : OSt) : Option Exc × OSt :=
+  match s.slot with
+  | none => (none, s)                          -- old_value == NULL: return 0
+  | some old =>
+    let s1 := { s with slot := none }          -- PyDict_DelItem
+    if s1.noNotify then (none, s1)
+    else
+      let tn := s1.tn
+      let on := s1.on
+      if tn.isSome || on.isSome then           -- (tnotifiers != NULL) || (onotifiers != NULL)
+        match traitGetattr E t s1 with         -- value = traito->getattr(traito, obj, name)
+        | (.error e, s2) => (some e, s2)
+        | (.ok v, s2) =>
+          let changed := changed0 || (old != v)
+          if changed then
+            match postSetattr E t v s2 with
+            | (some e, s3) => (some e, s3)
+            | (none, s3) =>
+              if hasNotifiers tn on then callNotifiers E t tn on old v s3
+              else (none, s3)
+          else (none, s2)
+      else (none, s1)
+
 /-- `setattr_trait` (ctraits.c:2373-2553); `value = none` is `del`.
 `traitd == traito` (no delegation in this cluster). -/
 def setattrTrait (E : Env) (t : TraitCore) (value : Option Id) (s : OSt) : Option Exc × OSt :=
   -- changed = (traitd->flags & TRAIT_COMPARISON_MODE_NONE);
   let changed0 := testFlag t.flags Generated.TRAIT_COMPARISON_MODE_NONE
   match value with
-  | none =>
-    match s.slot with
-    | none => (none, s)                          -- old_value == NULL: return 0
-    | some old =>
-      let s1 := { s with slot := none }          -- PyDict_DelItem
-      if s1.noNotify then (none, s1)
-      else
-        let tn := s1.tn
-        let on := s1.on
-        if tn.isSome || on.isSome then           -- (tnotifiers != NULL) || (onotifiers != NULL)
-          match traitGetattr E t s1 with         -- value = traito->getattr(traito, obj, name)
-          | (.error e, s2) => (some e, s2)
-          | (.ok v, s2) =>
-            let changed := changed0 || (old != v)
-            if changed then
-              match postSetattr E t v s2 with
-              | (some e, s3) => (some e, s3)
-              | (none, s3) =>
-                if hasNotifiers tn on then callNotifiers E t tn on old v s3
-                else (none, s3)
-            else (none, s2)
-        else (none, s1)
+  | none => setattrTraitDel E t changed0 s
   | some original =>
-    -- validate unless value is Undefined
-    let r : Except Exc Id × OSt :=
-      if t.validate.isSome && original != undef then
-        match runValidate E t original s.ctx with
-        | (r, c) => (r, { s with ctx := c })
-      else (.ok original, s)
-    match r with
+    match s.validateAssigned E t original with
     | (.error e, s1) => (some e, s1)
     | (.ok value, s1) =>
       let newValue := if testFlag t.flags Generated.TRAIT_SETATTR_ORIGINAL_VALUE then original else value
       let tn := s1.tn
       let on := s1.on
       let doNotifiers := hasNotifiers tn on
-      -- old value is only looked at when somebody will be told
-      let r2 : Except Exc (Option Id × Bool) × OSt :=
-        if t.post.isSome || doNotifiers then
-          match s1.slot with
-          | some old => (.ok (some old, changed0 || (old != value)), s1)
-          | none =>
-            -- materialise the default: stored, post_setattr'd, not notified
-            match s1.defaultValueFor E t with
-            | (.error e, s2) => (.error e, s2)
-            | (.ok old, s2) =>
-              let s3 := { s2 with slot := some old }
-              match postSetattr E t old s3 with
-              | (some e, s4) => (.error e, s4)
-              | (none, s4) => (.ok (some old, changed0 || (old != value)), s4)
-        else (.ok (none, changed0), s1)
-      match r2 with
+      match s1.fetchOld E t changed0 doNotifiers value with
       | (.error e, s2) => (some e, s2)
       | (.ok (oldOpt, changed), s2) =>
         let s3 := { s2 with slot := some newValue }   -- PyDict_SetItem(dict, name, new_value)
